@@ -162,6 +162,41 @@ func VerifC17FailClosed(k int) {
 	verifrt.Assert(h == nil, "no handler is returned without the misconfigured protection")
 }
 
+// VerifC17AuthGate: custom-auth with ANY configured key of l bytes (including
+// blank and whitespace-only spellings) against a client that presents no key or
+// any key of hl bytes. Either the configuration is refused, or the plugin fails
+// closed: the request passes only if the client presented exactly the configured,
+// non-empty key; otherwise it is answered 401 and neither later plugins nor the
+// backend see it.
+func VerifC17AuthGate(l int, hl int) {
+	key := verifrt.String("configuredKey", l)
+	for i := 0; i < len(key); i++ {
+		verifrt.Assume(key[i] < 0x80) // ASCII keys (includes every ASCII blank); multi-byte Unicode spaces are outside the string models
+	}
+	var pc config.PluginsConfig
+	pc.Enabled = true
+	pc.Chain = []config.PluginConfig{{Name: "custom-auth", Config: map[string]interface{}{"apiKey": key}}}
+	reached := false
+	h, err := BuildChain(pc, http.HandlerFunc(func(http.ResponseWriter, *http.Request) { reached = true }))
+	if err != nil {
+		verifrt.Assert(h == nil, "no handler is returned without the misconfigured protection")
+		verifrt.Reach("configuration refused")
+		return
+	}
+	r := &http.Request{Method: "GET", Header: http.Header{}}
+	presented := verifrt.Bool("clientPresentsKey")
+	got := ""
+	if presented {
+		got = verifrt.String("presentedKey", hl)
+		r.Header.Set("X-API-Key", got)
+	}
+	rec := verifNewRecorder()
+	h.ServeHTTP(rec, r)
+	match := presented && l > 0 && got == key
+	verifrt.Assert(verifrt.Implies(reached, match), "custom-auth lets a request through only if the client presented exactly the configured, non-empty key")
+	verifrt.Assert(verifrt.Implies(!match, rec.status == http.StatusUnauthorized), "a request without the exact key is answered 401")
+}
+
 // VerifC17Neg: negative twin - claims the LAST listed plugin is outermost.
 func VerifC17Neg() {
 	verifRegisterProbes()
